@@ -1249,6 +1249,9 @@ func (x *Evaluator) evalBinOp(v *ssa.BinOp, e *env, c *evalCtx) Val {
 							if l, ok := lst.(ListV); ok && l.IsFinite && l.ID > 0 {
 								return IntV{Origin: fmt.Sprintf("idxof:%d", l.ID), IdxOf: l.ID}
 							}
+							if l, ok := lst.(ListV); ok && l.Origin != "" {
+								return IntV{Origin: "index(" + l.Origin + ")"}
+							}
 							return IntV{Origin: "index(" + describeVal(lst) + ")"}
 						}
 					}
